@@ -84,6 +84,14 @@ type stepT struct {
 	Hi      int64        `json:"hi"`
 	Blocked bool         `json:"blocked"`
 	Exp     expT         `json:"exp"`
+	// C38 (backup.go): Backup(since) / Export(lo, hi) records of TSMEngineBackup.tla
+	Since   int64           `json:"since"`
+	Arch    [][]interface{} `json:"arch"`    // {<<gen, seq, "tsm" | "tombstone">>}
+	Clock   int64           `json:"clock"`   // logical clock after the step
+	RNoTomb [][][2]int64    `json:"rnotomb"` // a restore that drops the archive's tombstone files shows this
+	Want    [][][2]int64    `json:"want"`    // Export: the model restricted to [lo, hi]
+	Blk     [][][2]int64    `json:"blk"`     // Export: the implementation layer's prediction (whole blocks)
+	Tombs   bool            `json:"tombs"`   // Export: some TSM file has a tombstone file
 }
 
 type caseT struct {
@@ -92,6 +100,9 @@ type caseT struct {
 	NTimes int     `json:"ntimes"`
 	Conc   int     `json:"conc"`
 	Prop   string  `json:"prop"`
+	Images int     `json:"images"` // C02: crash images at schedule points / step boundaries this case may take
+	Torn   int     `json:"torn"`   // C02: crash images with a torn tail this case may take
+	Sweep  string  `json:"sweep"`  // C02: "full" = every byte offset of short WAL appends
 }
 
 // ---------------------------------------------------------------------------------------------- concretisation
@@ -396,7 +407,7 @@ func (e *shardEnv) read(k keyC, lo, hi int64, asc bool) ([]tv, error) {
 
 // ---------------------------------------------------------------------------------------------- parked jobs
 
-const stepTimeout = 20 * time.Second
+var stepTimeout = 20 * time.Second // (C02 raises it: crash images are judged inside schedule points)
 
 type job struct {
 	kind     string
@@ -433,6 +444,9 @@ func kindOf(name string) string {
 
 // hook is installed with tsm1.VerifSetHook; it runs on the goroutine that reached the schedule point.
 func hook(name string) {
+	if observeHook(name) { // C02 (crash.go): crash images at schedule points; points of a shard opened on an image are ignored
+		return
+	}
 	hookMu.Lock()
 	j := jobs[kindOf(name)]
 	hookMu.Unlock()
@@ -1081,6 +1095,12 @@ func runCase(raw json.RawMessage, env *rt.Env) rt.Result {
 	if c.NKeys <= 0 || c.NTimes <= 0 || len(c.Steps) == 0 {
 		return rt.Infra("bad case: nkeys/ntimes/steps missing")
 	}
+	if c.Prop == "C02" {
+		return runCrashCase(&c, raw, env)
+	}
+	if c.Prop == "C38" {
+		return runBackupCase(&c, raw, env)
+	}
 	tsm1.VerifSetHook(hook)
 	root, err := os.MkdirTemp(env.Scratch, "eng")
 	if err != nil {
@@ -1240,5 +1260,9 @@ func nontrivialHistory(c *caseT) bool {
 }
 
 func main() {
+	if len(os.Args) > 1 && os.Args[1] == "record" { // C39 (trace.go): recorder of concurrent traces
+		recordMain(os.Args[2:])
+		return
+	}
 	rt.Main(runCase)
 }
